@@ -248,6 +248,9 @@ fn add_degree_to_best_com(best_com: usize, deg_info: &mut DegreeInfo, directed: 
     }
 }
 
+/// Two modularity gains closer than this are considered equal (rounding noise).
+const GAIN_TIE_TOLERANCE: f64 = 1e-10;
+
 fn update_best_com(
     best_com: &mut usize,
     best_mod: &mut f64,
@@ -271,7 +274,10 @@ fn update_best_com(
             }
             false => 2.0 * wt - resolution * (deg_info.stot[nbr_com] * deg_info.degree) / m,
         };
-        if gain > *best_mod {
+        // gains that are equal in exact arithmetic can differ in their last bits (they are
+        // computed from different sums); treating such a difference as an improvement lets two
+        // nodes swap communities back and forth for ever, so it counts as a tie
+        if gain > *best_mod + GAIN_TIE_TOLERANCE {
             *best_mod = gain;
             *best_com = nbr_com;
         }
